@@ -201,29 +201,7 @@ func (in *vfGWInst) LastDeviations() []string {
 	if max == 0 {
 		max = 8
 	}
-	var out []string
-	n := 0
-	for k, p := range in.g.lastPts {
-		kindOK := false
-		for _, kd := range in.sc.DevKinds {
-			if kd == p.Kind {
-				kindOK = true
-			}
-		}
-		if !kindOK {
-			continue
-		}
-		n++
-		if n > max {
-			break
-		}
-		for v := 0; v < p.N; v++ {
-			if v != p.Def {
-				out = append(out, fmt.Sprintf("%s!%d=%d", in.lastEv, k, v))
-			}
-		}
-	}
-	return out
+	return vfDeviations(in.lastEv, in.g.lastPts, in.sc.DevKinds, max)
 }
 
 func (in *vfGWInst) Canon() string {
